@@ -47,6 +47,7 @@ def dispatch (j : Json) : R Json := do
   | "bind.call" => bindCall j
   | "bind.denote" => bindDenote j
   | "bind.kw" => bindKw j
+  | "bind.kwrecord" => bindKwRecord j
   | _ => throw s!"unknown op {op}"
 
 def handleLine (line : String) : String :=
